@@ -294,7 +294,9 @@ type idCase struct {
 	Batch int `json:"batch,omitempty"`
 }
 
-func (c idCase) label() string { return fmt.Sprintf("id-t%d-k%d-e%d-b%d", c.T, c.Key, c.Entry, c.Batch) }
+func (c idCase) label() string {
+	return fmt.Sprintf("id-t%d-k%d-e%d-b%d", c.T, c.Key, c.Entry, c.Batch)
+}
 
 // refKeyID is SHA-256 over the public key serialised without pat-go.
 func refKeyID(c idCase) []byte {
